@@ -148,6 +148,19 @@ fn phases_bc(env: &Env, rec: &mut Rec) {
         inputs.extend(longs);
     }
     let mut cases = Vec::new();
+    // first-use corpus: inputs that make the FIRST call of a thread touch as many lazily built or table-driven
+    // paths as possible (width tables incl. halfwidth kana/hangul, Zs, bidi, normalisation, context rules)
+    const FIRST_USE: [&str; 22] = [
+        "\u{FF9D}\u{FF76}", "\u{FFA1}\u{FFC2}", "\u{FF21}\u{FF42}", "\u{FF71}\u{FF9E}", "x\u{3000}y", "\u{FFE0}1", "\u{5D0}\u{5D1}", "\u{627}\u{644}\u{661}",
+        "a\u{A0}b", "\u{2003}x ", "\u{2163}", "\u{FB01}n", "e\u{301}", "l\u{B7}l", "\u{915}\u{94D}\u{200D}", "\u{391}\u{3A3}", "\u{13A0}", "\u{1F88}",
+        "\u{AC00}\u{1100}", "\u{20000}\u{1F600}", "\u{30FB}\u{30A2}", "Guybrush",
+    ];
+    for a in FIRST_USE {
+        for p in rawfmt::PROFILES {
+            cases.push(Case { op: if cases.len() % 2 == 0 { "prepare" } else { "enforce" }, profile: p, a: a.to_string(), b: a.to_string() });
+        }
+    }
+    let first_n = cases.len();
     for (i, a) in inputs.iter().enumerate() {
         // compare operands related to a: itself, its lowercase, an unrelated input
         let b = match i % 3 {
@@ -202,7 +215,7 @@ fn phases_bc(env: &Env, rec: &mut Rec) {
             .arg(&cf)
             .arg("--expect")
             .arg(&bf)
-            .args(["--threads", &threads.to_string(), "--rounds", &rounds.to_string(), "--seed", &seed.to_string()])
+            .args(["--threads", &threads.to_string(), "--rounds", &rounds.to_string(), "--seed", &seed.to_string(), "--first", &first_n.to_string()])
             .output();
         let out = match out {
             Ok(o) if o.status.success() => String::from_utf8_lossy(&o.stdout).to_string(),
@@ -272,11 +285,12 @@ fn phases_bc(env: &Env, rec: &mut Rec) {
     let hb = env.out_dir.join(format!("{}-hammer-baseline.txt", tag));
     let abs = &env.pools().abs;
     let mut hammer: Vec<Case> = Vec::new();
-    for (k, m) in [64u32, 256, 1024, 4096, 65536].iter().enumerate() {
-        // a PVALID letter v and a not-valid w = v + j*m
+    for (k, m) in [64u32, 256, 1024, 4096, 65536].iter().cycle().take(35).enumerate() {
+        // a PVALID letter v (ASCII, Latin-1, Greek, Hebrew, kana, Han, Hangul) and a not-valid w = v + j*m
         let mut found = 0;
-        let mut v = 0x61u32 + (env.seed as u32 % 20);
-        while found < 2 && v < 0x3000 {
+        let mut v = [0x61u32, 0xE9, 0x3B1, 0x5D0, 0x30AB, 0x4E00, 0xAC00][k / 5] + (env.seed as u32 % 20);
+        let stop = v + 0x400;
+        while found < 1 && v < stop {
             let ok = |c: u32| (c as usize) < crate::ucd::NCP && abs[c as usize] == crate::refmodel::Abs::PValid;
             if ok(v) {
                 if let Some(w) = (1..40u32).map(|j| v + j * m).chain((1..2u32).map(|j| v.wrapping_sub(j * m))).find(|w| {
